@@ -609,11 +609,13 @@ pub async fn c02_for_folder(
         snapshot_vault(vault, &key).await?
     };
     let target = account.backend_target().await;
-    let fresh = Folder::new(target, account_id, id).await?;
-    let mirror = {
-        let ap = fresh.access_point();
-        let ap = ap.lock().await;
-        snapshot_vault(ap.vault().clone(), &key).await?
+    let mirror = match Folder::new(target, account_id, id).await {
+        Ok(fresh) => {
+            let ap = fresh.access_point();
+            let ap = ap.lock().await;
+            snapshot_vault(ap.vault().clone(), &key).await?
+        }
+        Err(e) => json!({"error": format!("persisted vault cannot be opened: {e}")}),
     };
     if served != reduced {
         problems.push(format!(
